@@ -389,10 +389,17 @@ pub fn run_c20(tier: &str, seed: u64, workers: usize) -> i32 {
     pr.assumptions = vec![
         "tasks operate on disjoint groups / SubDevices / registers so that a sequential oracle is well defined; device inputs are constant".into(),
         "each task has at most one frame in flight, the storage has at least as many slots as there are tasks".into(),
-        "interleaving granularity is the await point (sub-poll interleavings of the PDU loop are C01/C02's subject)".into(),
+        "first batch: interleaving granularity is the await point; second batch (fibre engine): every instrumented shared-state access of the PDU loop, register-level requests only".into(),
     ];
     let (runs, wall) = if thorough { (600_000u64, 600u64) } else { (60_000u64, 40u64) };
     pr.replay_witnesses("concurrent-tasks", &c20_case);
     pr.batch("concurrent-tasks", runs, wall, "one run = 2..8 devices in 2..3 groups brought to OP, then 2..4 concurrent tasks (process data cycles of different groups, register read/write, EEPROM reads, SDO transfers on different SubDevices) with drawn slot counts (just enough .. 32) and latencies; oracle = each task's full result sequence equals the sequence of the same task run alone on a clone of the post-init segment, and contains no error; non-trivial = at least two frames were in flight at once; distinct = hash of the task set", &c20_case);
+    // Sub-poll batch on the fibre engine: the same property at the granularity of every shared-state
+    // access of the PDU loop, with one task whose requests are lost, time out, are retried or are
+    // dropped at any instant. The other tasks must neither fail nor see foreign bytes.
+    let f = move |rs: u64, nonce: u64, replay: Option<Vec<u32>>| crate::c_pdu::case(crate::pduscen::Prop::C20, thorough, rs, nonce, replay);
+    let (runs, wall) = if thorough { (10_000_000u64, 400u64) } else { (1_000_000u64, 25u64) };
+    pr.replay_witnesses("concurrent-tasks-subpoll", &f);
+    pr.batch("concurrent-tasks-subpoll", runs, wall, "one run = 2..3 application fibres issuing 1..6 register/logical requests each through the public builders on one MainDevice with 4 or 8 frame slots, plus the TX and RX fibres, pre-empted at every instrumented shared-state access of the PDU loop; task 0 disturbs (its responses are lost with a drawn rate or always, its requests time out, are retried, or its futures are dropped at a drawn poll); simulated time only advances when every party is blocked; oracle = every other task's request completes with exactly the bytes and working counter the wire returned for it, none times out, no allocation fails; non-trivial = a fault fired, two requests overlapped and a pre-emption happened inside a PDU-loop function; distinct = hash of the full event trace", &f);
     pr.finish()
 }
